@@ -30,11 +30,26 @@ func (c *conn) sendLoop(ctx async.Context) status.Status {
 			return st
 		}
 
+		// Get the wait channel and check the queue again before waiting. ReadWait inspects only
+		// the head block and clears a pending notification, so a message which was written into
+		// a new block after the last Read would never be noticed.
+		wait := c.writeq.ReadWait()
+		b, ok, st = c.writeq.Read()
+		switch {
+		case !st.OK():
+			return st
+		case ok:
+			if st := c.sendMessage(b); !st.OK() {
+				return st
+			}
+			continue
+		}
+
 		// Wait for more messages
 		select {
 		case <-ctx.Wait():
 			return ctx.Status()
-		case <-c.writeq.ReadWait():
+		case <-wait:
 		}
 	}
 }
